@@ -167,11 +167,187 @@ Lemma handle_tp_nr r pgn src dst len buf h r2 ev idx : handle_tp r pgn src dst l
 Proof.
   intros H. unfold handle_tp in H. cbv zeta in H.
   repeat head_step H; inj_pairs; split_if_hyps; inj_pairs;
-  try match goal with |- NR _ _ (rn (if ?b then _ else _)) => destruct b end; nr;
+  repeat (nr; try match goal with |- NR _ _ (rn (if ?b then _ else _)) => destruct b end);
   try match goal with
   | E : send_tpcm_abort _ _ _ _ _ = (?r2, ?ev) |- NR _ ?ev (rn ?r2) => eapply send_tpcm_abort_nr; [exact E|idev_side|nr]
   | E : send_tpcm_cts _ _ _ _ _ _ = (?r2, ?ev) |- NR _ ?ev (rn ?r2) => eapply send_tpcm_cts_nr; [exact E|idev_side|nr]
   | E : send_tpcm_endack _ _ _ _ _ _ = (?r2, ?ev) |- NR _ ?ev (rn ?r2) => eapply send_tpcm_endack_nr; [exact E|idev_side|nr]
   | E : send_tpdt_burst _ _ _ = (?r2, ?ev, _) |- NR _ ?ev (rn ?r2) => eapply send_tpdt_burst_nr; [exact E|idev_side|nr]
   end.
+Qed.
+
+Ltac aux_facts :=
+  repeat match goal with
+  | E : mark_ready ?X ?i = (?r3, _) |- _ =>
+      let F := fresh "F" in assert (F: rn r3 = rn X) by (rewrite <- (rn_mark_ready X i), E; reflexivity); clear E
+  | E : millis64 ?X = (?r3, _) |- _ =>
+      let F := fresh "F" in assert (F: rn r3 = rn X) by (rewrite <- (rn_millis64 X), E; reflexivity); clear E
+  end.
+
+Lemma rx_frame_nr r f r2 ev idx : rx_frame r f = (r2, ev, idx) -> NR (rn r) ev (rn r2).
+Proof.
+  intros H. unfold rx_frame in H. cbv zeta in H.
+  repeat head_step H; inj_pairs; aux_facts;
+  try match goal with E : handle_tp _ _ _ _ _ _ = (_, ?r1, ?ev, _) |- NR _ ?ev (rn ?r1) => exact (handle_tp_nr _ _ _ _ _ _ _ _ _ _ E) end;
+  repeat match goal with F : rn ?a = _ |- NR _ _ (rn ?a) => rewrite F end; nr.
+Qed.
+
+(* ---------- address claim ---------- *)
+Definition od (i:Z) (n n':node) : Prop := only_dev i n n' /\ n_q n' = n_q n /\ n_drv n' = n_drv n.
+Lemma od_refl i n : od i n n.
+Proof. split; [apply only_dev_refl|auto]. Qed.
+Lemma od_trans i a b c : od i a b -> od i b c -> od i a c.
+Proof. intros (A1 & A2 & A3) (B1 & B2 & B3). split; [eapply only_dev_trans; eassumption|split; congruence]. Qed.
+Lemma od_upd_dev i n d : od i n (upd_dev n i d).
+Proof. split; [apply only_dev_upd|split; reflexivity]. Qed.
+Lemma od_set_src r i s ue : od i (rn r) (rn (set_src r i s ue)).
+Proof. unfold set_src. cbn [rn with_rn]. rewrite rn_chk_dev. apply od_upd_dev. Qed.
+Lemma od_set_addr_changed i r : od i (rn r) (rn (set_addr_changed r)).
+Proof. unfold set_addr_changed, od, only_dev. cbn [rn with_rn n_w64 n_mode n_now n_q n_drv n_open]. repeat split; auto. Qed.
+Lemma od_set_name r i nm : od i (rn r) (rn (set_name r i nm)).
+Proof. unfold set_name. cbn [rn with_rn]. rewrite rn_chk_dev. apply od_upd_dev. Qed.
+Lemma od_claim_started i n : od i n (fst (claim_started n i)).
+Proof.
+  split; [apply claim_started_src|]. pose proof (claim_started_spec n i) as (_ & (_ & _ & _ & A & B & _) & _). split; assumption.
+Qed.
+
+Lemma od_next_address : forall k r i b, od i (rn r) (rn (next_address k r i b)).
+Proof.
+  induction k as [|k IH]; intros r i b; cbn [next_address]; [apply od_refl|].
+  destruct (_ =? c_N2kNullCanBusAddress).
+  - destruct b; [|apply od_refl]. destruct (same_as_sibling _ _).
+    + eapply od_trans; [apply od_set_src|apply IH].
+    + eapply od_trans; [apply od_set_src|apply od_set_addr_changed].
+  - destruct (negb _).
+    + destruct (same_as_sibling _ _).
+      * eapply od_trans; [apply od_set_src|apply IH].
+      * eapply od_trans; [apply od_set_src|apply od_set_addr_changed].
+    + eapply od_trans; [apply od_set_src|apply od_set_addr_changed].
+Qed.
+
+Lemma rstart_claim_nr n Y i r2 ev : rstart_claim Y i = (r2, ev) -> 0 <= i -> od i n (rn Y) -> NR n ev (rn r2).
+Proof.
+  unfold rstart_claim. intros H Hi (O & Q & D). destruct (start_address_claim (rn (chk_dev Y i)) i) as [n' ev'] eqn:E.
+  injection H as <- <-. cbn [rn with_rn]. rewrite rn_chk_dev in E. intros C.
+  eapply start_claim_after; eassumption.
+Qed.
+
+Lemma rsend_claim_nr n Y dst i r2 ev : rsend_claim Y dst i = (r2, ev) -> NR n [] (rn Y) -> NR n ev (rn r2).
+Proof.
+  unfold rsend_claim, send_iso_address_claim. intros H A.
+  set (i' := if (dst =? 255) && (i =? -1) then 0 else i) in *.
+  destruct ((i' <? 0) || (i' >=? dev_count (rn Y))) eqn:Er.
+  - injection H as <- <-. cbn [rn with_rn]. exact A.
+  - destruct (send_msg (rn Y) _ i') as [[n1 ev1] ok] eqn:E. injection H as <- <-. cbn [rn with_rn].
+    eapply NR_after; [exact A|]. intros _. destruct (send_msg_run _ _ _ _ _ _ E) as (p & R).
+    apply orb_false_iff in Er. destruct Er as [Er _]. rewrite Er in R. exists p. exact R.
+Qed.
+
+Lemma find_src_ge : forall devs src k, 0 <= k -> find_src devs src k = -1 \/ 0 <= find_src devs src k.
+Proof.
+  induction devs as [|d rest IH]; intros src k Hk; cbn [find_src]; [left; reflexivity|].
+  destruct (d_src d =? src); [right; exact Hk|]. apply IH. lia.
+Qed.
+Lemma find_source_device_ge r src : find_source_device r src = -1 \/ 0 <= find_source_device r src.
+Proof. unfold find_source_device. destruct (src <=? 253); [apply find_src_ge; lia|left; reflexivity]. Qed.
+
+Lemma handle_claim_nr r src data r2 ev : handle_claim r src data = (r2, ev) -> NR (rn r) ev (rn r2).
+Proof.
+  unfold handle_claim. intros H. cbv zeta in H.
+  destruct ((src =? c_N2kNullCanBusAddress) || (find_source_device r src =? -1)) eqn:E0; [injection H as <- <-; apply NR_refl|].
+  apply orb_false_iff in E0. destruct E0 as [_ E0]. apply Z.eqb_neq in E0.
+  assert (Hi: 0 <= find_source_device r src) by (destruct (find_source_device_ge r src); [contradiction|assumption]).
+  set (i := find_source_device r src) in *.
+  destruct (_ <? _).
+  - eapply rsend_claim_nr; [exact H|nr].
+  - pose proof (od_claim_started i (rn (chk_dev r i))) as OC.
+    destruct (claim_started (rn (chk_dev r i)) i) as [n1 started]. cbn [fst] in OC. rewrite rn_chk_dev in OC.
+    destruct ((_ =? _) && started) eqn:E1.
+    + apply andb_true_iff in E1. destruct E1 as [E1 _]. rewrite E1 in H.
+      eapply rstart_claim_nr; [exact H|exact Hi|]. cbn [rn with_devinfo_changed].
+      eapply od_trans; [|apply od_set_name]. cbn [rn with_rn]. exact OC.
+    + eapply rstart_claim_nr; [exact H|exact Hi|].
+      eapply od_trans; [|apply od_next_address].
+      destruct (_ =? _); [cbn [rn with_rn]; exact OC|rewrite rn_chk_dev; apply od_refl].
+Qed.
+
+Lemma commanded_one_nr r nm na i r2 ev : commanded_one r nm na i = (r2, ev) -> 0 <= i -> NR (rn r) ev (rn r2).
+Proof.
+  unfold commanded_one. intros H Hi. cbv zeta in H.
+  destruct (na =? 255); [injection H as <- <-; nr|].
+  destruct (_ && _)%bool; [|injection H as <- <-; nr].
+  destruct (rstart_claim _ i) as [r1 ev1] eqn:E. injection H as <- <-.
+  apply (NR_quiet_r _ _ _ _ (qc_set_addr_changed _)).
+  eapply rstart_claim_nr; [exact E|exact Hi|]. rewrite <- (rn_chk_dev r i) at 1. apply od_set_src.
+Qed.
+
+Lemma commanded_all_nr : forall k r nm na i r2 ev, commanded_all k r nm na i = (r2, ev) -> 0 <= i -> NR (rn r) ev (rn r2).
+Proof.
+  induction k as [|k IH]; intros r nm na i r2 ev H Hi; cbn [commanded_all] in H.
+  - injection H as <- <-. apply NR_refl.
+  - destruct (commanded_one r nm na i) as [r1 ev1] eqn:E1. destruct (commanded_all k r1 nm na (i+1)) as [r2' ev2] eqn:E2.
+    injection H as <- <-. eapply NR_trans; [eapply commanded_one_nr; eassumption|eapply IH; [exact E2|lia]].
+Qed.
+
+Lemma handle_commanded_nr r s r2 ev : handle_commanded r s = (r2, ev) -> NR (rn r) ev (rn r2).
+Proof.
+  unfold handle_commanded. intros H. cbv zeta in H.
+  destruct (negb _); [injection H as <- <-; apply NR_refl|].
+  destruct (negb (s_dst s =? 255) && _); [injection H as <- <-; apply NR_refl|].
+  destruct (_ >=? 252); [injection H as <- <-; apply NR_refl|].
+  destruct (find_source_device r (s_dst s) =? -1) eqn:E.
+  - eapply commanded_all_nr; [exact H|lia].
+  - apply Z.eqb_neq in E. eapply commanded_one_nr; [exact H|]. destruct (find_source_device_ge r (s_dst s)); [contradiction|assumption].
+Qed.
+
+(* ---------- ISO request ---------- *)
+Lemma send_product_info_nr n Y i r2 ev : send_product_info Y i = (r2, ev) -> 0 <= i -> NR n [] (rn Y) -> NR n ev (rn r2).
+Proof.
+  unfold send_product_info. intros H Hi A. cbv zeta in H. destruct (rsend _ _ i) as [[r1 ev1] ok] eqn:E. injection H as <- <-.
+  rewrite rn_set_pending. eapply rsend_nr; [exact E|exact Hi|nr].
+Qed.
+Lemma send_config_info_nr n Y i r2 ev : send_config_info Y i = (r2, ev) -> 0 <= i -> NR n [] (rn Y) -> NR n ev (rn r2).
+Proof.
+  unfold send_config_info. intros H Hi A. cbv zeta in H. destruct (rsend _ _ i) as [[r1 ev1] ok] eqn:E. injection H as <- <-.
+  rewrite rn_set_pending. eapply rsend_nr; [exact E|exact Hi|nr].
+Qed.
+
+Lemma respond_iso_request_nr r rq ad rpgn i r2 ev : respond_iso_request r rq ad rpgn i = (r2, ev) -> 0 <= i -> NR (rn r) ev (rn r2).
+Proof.
+  unfold respond_iso_request. intros H Hi. cbv zeta in H.
+  pose proof (claim_started_spec (rn (chk_dev r i)) i) as (_ & QC & _).
+  destruct (claim_started (rn (chk_dev r i)) i) as [n1 started]. cbn [fst] in QC. rewrite rn_chk_dev in QC.
+  set (r0 := with_rn (chk_dev r i) n1) in *.
+  assert (A: NR (rn r) [] (rn r0)) by (apply NR_quiet; exact QC).
+  destruct started; [injection H as <- <-; exact A|].
+  destruct (rpgn =? 60928); [eapply rsend_claim_nr; eassumption|].
+  destruct (rpgn =? 126464).
+  { destruct (rsend r0 _ i) as [[r1 ev1] ok1] eqn:E1. destruct (rsend r1 _ i) as [[r2' ev2] ok2] eqn:E2. injection H as <- <-.
+    eapply NR_trans; [eapply rsend_nr; [exact E1|exact Hi|exact A]|eapply rsend_nr; [exact E2|exact Hi|apply NR_refl]]. }
+  destruct (rpgn =? 126996); [eapply send_product_info_nr; eassumption|].
+  destruct (rpgn =? 126998); [eapply send_config_info_nr; eassumption|].
+  destruct (match c_iso_handler (r_cfg r0) with Some acc => _ | None => _ end) as [[|]|].
+  - injection H as <- <-. eapply NR_then; [|apply NR_refl]. change [EvNote (1000000 + rpgn)] with ([] ++ [EvNote (1000000 + rpgn)]).
+    eapply NR_trans; [exact A|apply NR_note; reflexivity].
+  - destruct ad; [|injection H as <- <-; exact A].
+    destruct (rsend r0 _ i) as [[r1 ev1] ok1] eqn:E1. injection H as <- <-. eapply rsend_nr; [exact E1|exact Hi|exact A].
+  - injection H as <- <-. exact A.
+Qed.
+
+Lemma respond_all_nr : forall k r rq rpgn i r2 ev, respond_all k r rq rpgn i = (r2, ev) -> 0 <= i -> NR (rn r) ev (rn r2).
+Proof.
+  induction k as [|k IH]; intros r rq rpgn i r2 ev H Hi; cbn [respond_all] in H.
+  - injection H as <- <-. apply NR_refl.
+  - destruct (respond_iso_request r rq false rpgn i) as [r1 ev1] eqn:E1. destruct (respond_all k r1 rq rpgn (i+1)) as [r2' ev2] eqn:E2.
+    injection H as <- <-. eapply NR_trans; [eapply respond_iso_request_nr; eassumption|eapply IH; [exact E2|lia]].
+Qed.
+
+Lemma handle_iso_request_nr r s r2 ev : handle_iso_request r s = (r2, ev) -> NR (rn r) ev (rn r2).
+Proof.
+  unfold handle_iso_request. intros H. cbv zeta in H.
+  destruct (negb (s_dst s =? 255) && (find_source_device r (s_dst s) =? -1)) eqn:E0; [injection H as <- <-; apply NR_refl|].
+  destruct (s_dst s =? 255) eqn:E1.
+  - eapply respond_all_nr; [exact H|lia].
+  - cbn [negb andb] in E0. apply Z.eqb_neq in E0. eapply respond_iso_request_nr; [exact H|].
+    destruct (find_source_device_ge r (s_dst s)); [contradiction|assumption].
 Qed.
